@@ -344,7 +344,7 @@ CLAUSE = ("x86_run(emitted bytes, s) == bc_step(instr, abstract(s)) for ALL mach
 
 
 def harnesses(tier, seed):
-    t = 240 if tier == "quick" else 900
+    t = 420 if tier == "quick" else 900
     hs = []
     insts = _instances(tier, seed)
     for n, w, i, live in insts:
@@ -521,13 +521,15 @@ def native_replay(ob, tier, seed):
         return None
     n, w, ins, live, temps, lim, safe, mn, mx, call = cases[0]
     # operand values of the verifier's counterexample: new_machine() draws r[16], stk[26], havoc[9],
-    # mem[41], ctx[4], zf, cf in this order; Kani's playback lists one byte vector per draw
+    # ext[3], mem[41], ctx[4], zf, cf, mul_p, mul_f; Kani's playback lists one byte vector per draw (found by length)
     cex_t, cex_m = "", ""
     pv = ob.get("playback_values") or []
-    if len(pv) >= 4 and len(pv[0]["bytes"]) == 128 and len(pv[1]["bytes"]) == 8 * 26 and len(pv[3]["bytes"]) == 8 * 41:
+    def first(n):
+        return next((x["bytes"] for x in pv if len(x["bytes"]) == n), None)
+    if first(128) and first(8 * 26) and first(8 * 41):
         def q(bs, k):
             return int.from_bytes(bytes(bs[8 * k:8 * k + 8]), "little")
-        regs, stk, mem = pv[0]["bytes"], pv[1]["bytes"], pv[3]["bytes"]
+        regs, stk, mem = first(128), first(8 * 26), first(8 * 41)
         tmp_reg = [12, 13, 14, 15, 6, 7, 2, 8, 9, 10, 11]
         bits = int(w[1:])
         nbytes = bits // 8
